@@ -191,6 +191,8 @@ def run_property(pid, tier, seed, wall_budget=None, verbose=True):
     t0 = time.monotonic()
     mod = load(pid)
     specs = mod.shards(tier, seed)
+    if os.environ.get("VERIF_SHARDS_JSON"):  # development aid: explore an ad-hoc shard list (never used by registered commands)
+        specs = json.loads(os.environ["VERIF_SHARDS_JSON"])
     if os.environ.get("VERIF_ONLY"):  # development aid: restrict to one harness (never used by registered commands)
         specs = [s for s in specs if s["h"] in os.environ["VERIF_ONLY"].split(",")]
         if os.environ.get("VERIF_ONLY_PARAMS"):
